@@ -62,6 +62,8 @@ func c06Expressions() []struct {
 		{"Cond(x=y)", func() any { return stackage.Cond("x", stackage.Eq, "y") }}, {"true", func() any { return true }},
 		{"CondAlias(x>y)", func() any { return CondAlias(stackage.Cond("x", stackage.Gt, "y")) }},
 		{"&CondAliasS(x<y)", func() any { a := CondAliasS(stackage.Cond("x", stackage.Lt, "y")); return &a }},
+		// a NOT stack as expression: rendered as the stack renders itself (the word NOT belongs to a parent STACK)
+		{"Not(z)", func() any { return stackage.Not().Push("z") }}, {"Not()paren(x=y)", func() any { return stackage.Not().SetParen(true).Push(stackage.Cond("x", stackage.Eq, "y")) }},
 	}
 }
 
@@ -264,7 +266,7 @@ func c06Ops(variant ...string) []condOp {
 	var keep []condOp
 	for _, o := range ops {
 		switch {
-		case o.name == `Cond("k",Eq,"v")`, o.name == `SetExpression(7)`, o.name == `SetExpression(Or(a))`, strings.HasPrefix(o.name, "SetEncap"), strings.HasPrefix(o.name, "SetParen"), strings.HasPrefix(o.name, "SetNoPadding"):
+		case o.name == `Cond("k",Eq,"v")`, o.name == `SetExpression(7)`, o.name == `SetExpression(Or(a))`, o.name == `SetExpression(Not()paren(x=y))`, strings.HasPrefix(o.name, "SetEncap"), strings.HasPrefix(o.name, "SetParen"), strings.HasPrefix(o.name, "SetNoPadding"):
 			keep = append(keep, o)
 		}
 	}
@@ -288,6 +290,10 @@ func c06Ops(variant ...string) []condOp {
 	addEnc("SetEncap([< >])", [][]string{{"<", ">"}}, []string{"<", ">"})
 	addEnc("SetEncap([[ ]])", [][]string{{"[", "]"}}, []string{"[", "]"})
 	addEnc("SetEncap(|,[{ }])", [][]string{{"|"}, {"{", "}"}}, "|", []string{"{", "}"})
+	// single characters that are also halves of the pairs above: a pair refused because ONE half is taken
+	// leaves the other half free
+	addEnc("SetEncap(>)", [][]string{{">"}}, ">")
+	addEnc("SetEncap(<)", [][]string{{"<"}}, "<")
 	return keep
 }
 
@@ -412,6 +418,9 @@ func c06Machine(c *Ctx, variant ...string) *Machine[*condInst] {
 func init() {
 	register(&Check{ID: "C06", Engine: "A", Run: func(c *Ctx) {
 		me := c06Machine(c, "encapsulation")
+		if c.Quick() {
+			me.MaxDepth = 5 // eight schemes: every order of up to four of them after the constructor (the thorough tier runs to the fix-point)
+		}
 		ste := BFS(c, me)
 		m := c06Machine(c)
 		st := BFS(c, m)
